@@ -2,10 +2,21 @@
 Serves C10 (delivery-time law, FIFO, loss only by rate, cable = two independent wires) and the wire's share
 of C08 (conservation, identity, per-flow order, drained).  Models: coq/Elem/Wire.v, coq/Elem/Cable.v.
 
-kinds:  'wire'   one Wire, scripted delay_dist and random.uniform, bursty arrivals from 1-3 drivers; optionally
-                 stopped early (case["until"]) so that packets are still held when the run stops
-        'cable'  a real Cable between two devices, traffic in both directions at once; both wires share the same
-                 delay_dist callable and the same `random`, so the scripted draws are consumed in global order
+kinds:  'wire'   one Wire, scripted delay_dist and random.uniform, bursty arrivals from 1-3 drivers; optionally stopped early
+                 (case["until"]); optionally RECONFIGURED BETWEEN PACKETS (case["reconf"]: loss_rate / delay_dist / out assigned
+                 at some instant; the value in force when run() takes / hands over a packet counts); optionally the same Packet
+                 objects enter again later (a retransmission) once their earlier traversal is over
+        'cable'  a real Cable between two devices, traffic in both directions at once (40%: bursts queued in both directions at
+                 the same time); both wires share the same delay_dist callable and the same `random`, so the scripted draws are
+                 consumed in global order
+        'multi'  several wires in one Environment: shape 'hub' = a real Hub with three wires as ports (ONE Packet object is put
+                 into two wires at the same instant and must be delayed by each independently), shape 'chain' = two wires in
+                 sequence (two traversals of one object); each wire is compared with its own wire automaton on its projection
+all kinds: case["config"] = ctor | assign (constructed with OTHER values -- a decoy delay_dist that must never be called, another
+           loss rate and id -- then the public attributes assigned before any traffic) | bare (constructed without the optional
+           arguments, configured by assignment); every next hop records the wire's public state from inside its put()
+           (hand-off view); case["canary"]: a tiny fixed Wire+Cable scenario is run afterwards in the same worker process and
+           compared with its known observation.
 """
 from fractions import Fraction
 
@@ -17,6 +28,7 @@ DELAY_LATTICE = [F(0), F(1, 4), F(1, 2), F(1), F(3, 2), F(2), F(4)]
 UNIFORMS = [F(0), F(1, 8), F(1, 4), F(3, 8), F(1, 2), F(3, 4), F(1)]
 NODES = ["Dev1", "NW1", "Dev2", "NW2"]
 TAPNODE = {"dev1": "Dev1", "dev2": "Dev2"}
+LOSSES = [None, None, 0, F(1, 4), F(1, 2), 1]
 
 
 class Script:
@@ -35,6 +47,17 @@ class Script:
         return self()
 
 
+class Decoy:
+    """the delay_dist an object is CONSTRUCTED with in late-configuration cases; it must never be called"""
+
+    def __init__(self):
+        self.n = 0
+
+    def __call__(self, *a):
+        self.n += 1
+        return 64.0
+
+
 class Via:
     """a device sending through whatever its `out` points to (resolved at send time)"""
 
@@ -45,11 +68,41 @@ class Via:
         return self.dev.out.put(p)
 
 
-def _loss_arg(case):
-    loss = None if case["loss"] is None else ec.T(case["loss"])
+class HTap(ec.Tap):
+    """a next hop that looks at the wire that feeds it from INSIDE its put(): the public state of the wire at the
+    hand-off is recorded as a 6th component of the out entry"""
+
+    def __init__(self, h, tag, nxt=None):
+        super().__init__(h, tag)
+        self.feeder = None
+        self.nxt = nxt
+        self.out = None
+        self.element_id = tag
+
+    def put(self, p):
+        uid = getattr(p, "uid", None)
+        self.got.append(p)
+        w = self.feeder() if callable(self.feeder) else self.feeder
+        probe = None
+        if w is not None:
+            ct = getattr(p, "current_time", None)
+            probe = [w.packets_rec, len(w.store.items), sum(1 for x in w.store.items if x is p),
+                     None if ct is None else ec.qs(ct), w.out is self]
+        self.h._emit(["out", self.tag, uid, ec.pkt_fields(p), id(p) == id(self.h.packets.get(uid)), probe])
+        if self.nxt is not None:                      # relay: forward the very same object
+            self.nxt.put(p)
+
+
+def _loss_val(x):
+    loss = None if x is None else ec.T(x)
     if isinstance(loss, float) and loss == int(loss):
         loss = int(loss)
     return loss
+
+
+def _loss_arg(case):
+    """kept for other parts that build wire stages (props/part_gensink.py)"""
+    return _loss_val(case["loss"])
 
 
 def _offset(w, k):
@@ -59,14 +112,12 @@ def _offset(w, k):
     return {"packets": pk, "drivers": dr}
 
 
-def _recurrence(arrivals, draws, loss, t0=F(0)):
-    """the property's recurrence for one wire.  arrivals [(uid, a)], draws: callable k -> (u or None, d or None) is
-    NOT used: draws are supplied by next_u()/next_d() closures so that the caller decides the consumption order.
-    Here: draws is a list of (u, d) already attributed to packets k = 0..len(draws)-1.
-    -> list of (uid, a, s, lost, T or None)"""
+def _recurrence(arrivals, deq, t0=F(0)):
+    """the property's recurrence for one wire.  arrivals [(uid, a)]; deq [(instant, (u, d), loss in force)] already
+    attributed to traversals k = 0..len(deq)-1.  -> list of (uid, a, s, lost, T or None)"""
     out = []
     Fk = t0
-    for (uid, a), (u, d) in zip(arrivals, draws):
+    for (uid, a), (_, (u, d), loss) in zip(arrivals, deq):
         s = max(a, Fk)
         if loss and u is not None and u < loss:
             out.append((uid, a, s, True, None))
@@ -76,6 +127,81 @@ def _recurrence(arrivals, draws, loss, t0=F(0)):
         out.append((uid, a, s, False, tdel))
         Fk = tdel
     return out
+
+
+def _build(wmod, env, what, config, delays, loss, decoy):
+    """construct a Wire ('wire') or a Cable ('cable') the way the case says:
+    ctor    all values as constructor arguments
+    assign  constructed with OTHER values (a decoy delay_dist, another loss rate, another id), then the public attributes
+            the code reads at every use are assigned before any traffic
+    bare    constructed WITHOUT the optional arguments, configured by assignment"""
+    cls = wmod.Wire if what == "wire" else wmod.Cable
+    if config == "ctor":
+        return cls(env, delay_dist=delays, loss_rate=loss)
+    if config == "assign":
+        obj = cls(env, decoy, 1 if not loss else None, 99)
+    else:
+        obj = cls(env, delays)
+    for k, w in enumerate([obj] if what == "wire" else [obj.wire1, obj.wire2]):
+        w.delay_dist = delays
+        if config == "assign" or loss is not None:
+            w.loss_rate = loss
+        if config == "assign":
+            w.wire_id = k
+    return obj
+
+
+# ---- canary: a tiny fixed scenario run in the same worker process after some cases; state that leaks across
+# instances or runs (class-level containers, module globals, default-argument lists) changes what it observes
+CANARY_EXPECT = {"wire": [[1, "2/1"], [2, "2/1"], [4, "4/1"]], "rec": 4, "left": 0,
+                 "dev2": [[10, "2/1"]], "dev1": [[11, "1/1"]], "crec": [1, 1]}
+
+
+def run_canary(wmod):
+    from onl.sim import Environment
+    from onl.packet import Packet
+
+    class Sink:
+        def __init__(self, env):
+            self.env, self.got, self.out = env, [], None
+
+        def put(self, p):
+            self.got.append([p.packet_id, ec.qs(self.env.now)])
+    saved = wmod.random
+    try:
+        unis = Script(["1/2", "1/2", "0", "1"])
+
+        class R:
+            uniform = staticmethod(unis.uniform)
+        wmod.random = R
+        env = Environment()
+        w = wmod.Wire(env, Script(["2", "1/2", "1"]))
+        w.loss_rate = 0.25
+        w.out = Sink(env)
+        ps = [Packet(time=0.0, size=100, packet_id=i + 1, src="c", flow_id=0) for i in range(4)]
+
+        def drv():
+            w.put(ps[0])
+            yield env.timeout(1)
+            w.put(ps[1])
+            w.put(ps[2])
+            yield env.timeout(2)
+            w.put(ps[3])
+        env.process(drv())
+        env.run()
+        env2 = Environment()
+        c = wmod.Cable(env2, Script(["2", "1"]))
+        d1, d2 = Sink(env2), Sink(env2)
+        c.set_endpoints(d1, d2)
+        d1.out.put(Packet(time=0.0, size=100, packet_id=10, src="c", flow_id=0))
+        d2.out.put(Packet(time=0.0, size=100, packet_id=11, src="c", flow_id=0))
+        env2.run()
+        return {"wire": w.out.got, "rec": w.packets_rec, "left": len(w.store.items), "dev2": d2.got, "dev1": d1.got,
+                "crec": [c.wire1.packets_rec, c.wire2.packets_rec]}
+    except Exception as e:  # the canary itself must never raise
+        return {"raised": [type(e).__name__, str(e)[:200]]}
+    finally:
+        wmod.random = saved
 
 
 # ------------------------------------------------------------------------------------------------
@@ -125,7 +251,7 @@ def extracted_wire_run(repo):
 
 class WirePart:
     name = "wire"
-    kinds = ["wire", "cable"]
+    kinds = ["wire", "cable", "multi"]
     serves = ["C10", "C08"]
     coq_imports = ["From ONL Require Import Base.Cmp Elem.Packet Elem.StoreQ Elem.Wire Elem.Cable."]
     props_files = {"C10": ["Props/C10.v", "Props/C10_Bridge.v", "Props/C10_BridgeRun.v"], "C08": ["Props/C08_Wire.v"]}
@@ -142,13 +268,18 @@ class WirePart:
 
     weight = 1
     nontrivial_rule = {
-        "C10": ("kind 'wire' (70%): random bursty workloads from 1-3 driver processes on a dyadic time lattice (arrivals coincide "
+        "C10": ("kind 'wire' (66%): random bursty workloads from 1-3 driver processes on a dyadic time lattice (arrivals coincide "
                 "with deliveries), delay scripts constant / decreasing / zero / random, loss rate None/0/0.25/0.5/1 with scripted "
-                "uniform draws (values equal to the rate included), a quarter of the runs stopped early; kind 'cable' (30%): a real "
-                "Cable with traffic in both directions, shared scripted draws; non-trivial = at least 3 packets and at least one "
-                "packet dequeued later than it arrived (it waited behind an earlier one); distinct by hash of the case"),
+                "uniform draws (values equal to the rate included), a quarter stopped early, 15% reconfigured between packets "
+                "(loss_rate / delay_dist / out), 12% with Packet objects re-entering later; kind 'cable' (22%): a real Cable with "
+                "traffic in both directions (40% with bursts queued in both directions at once), shared scripted draws; kind "
+                "'multi' (12%): a real Hub putting one object into two wires, or two wires in sequence; 28% of all cases configured "
+                "by assignment after construction (16% over decoy constructor values, 12% without optional arguments); 8% followed "
+                "by the canary scenario; non-trivial = at least 3 packets and at least one packet dequeued later than it arrived; "
+                "distinct by hash of the case"),
         "C08": ("same case stream as C10; non-trivial = at least 3 packets and at least one packet waiting behind another; "
-                "early-stopped runs exercise the 'still held' clause, exhausted runs the 'nothing held at quiescence' clause"),
+                "early-stopped runs exercise the 'still held' clause, exhausted runs the 'nothing held at quiescence' clause; "
+                "conservation is counted per traversal (a Packet object may pass the same wire several times)"),
     }
     trusted_base = {
         "C10": ["random.uniform and delay_dist are replaced by scripted sequences (the wire's own code is untouched)",
@@ -166,17 +297,23 @@ class WirePart:
         "C08": ["packet identity is the Python object identity recorded by the harness taps (uid = creation index)"],
     }
     assumptions = {
-        "C10": ["'with probability p' is read as: lost iff the uniform draw is < loss_rate (definition of a uniform draw); "
+        "C10": ["a Packet object is not put into any wire again while an earlier traversal of it is still waiting in a wire's store",
+                "'with probability p' is read as: lost iff the uniform draw is < loss_rate (definition of a uniform draw); "
                 "independence of the draws is a property of `random`, not of the wire",
                 "admissibility of the observed executions (the kernel runs everything due at an instant before the clock moves) is "
                 "checked on every observed execution, proved for the kernel model under C01"],
-        "C08": ["a packet object is put into a wire at most once while it is inside (Packet.current_time is a field of the packet)"],
+        "C08": ["a Packet object is not put into any wire again while an earlier traversal of it is still waiting in a wire's store "
+                "(Packet.current_time is a per-object stamp: see the finding reported for C10)"],
     }
-    partial = {}
+    partial = {"C10": ["the theorems of Props/C10.v quantify over a loss rate fixed for the whole execution; reconfiguration between "
+                       "packets (loss_rate / delay_dist / out assigned while packets are inside) is covered by the per-action "
+                       "correspondence (wire_agree_cfg: the loss rate in force at each action) and by the monitor, not by a theorem",
+                       "the same Packet object re-entering a wire while an earlier traversal is still queued is outside the model "
+                       "(the code shares one stamp per object; reported as a finding) and is kept out of the generated cases"]}
 
     # ---- generation ---------------------------------------------------------------------------------
-    def _draws(self, rng, n):
-        style = rng.choice(["const", "decr", "zero", "rand", "rand"])
+    def _delays(self, rng, n, style=None):
+        style = style or rng.choice(["const", "decr", "zero", "rand", "rand"])
         if style == "const":
             delays = [rng.choice(DELAY_LATTICE[1:])] * n
         elif style == "decr":
@@ -185,24 +322,97 @@ class WirePart:
             delays = [F(0)] * n
         else:
             delays = [rng.choice(DELAY_LATTICE) for _ in range(n)]
-        loss = rng.choice([None, None, 0, F(1, 4), F(1, 2), 1])
+        return delays, style
+
+    def _draws(self, rng, n):
+        delays, style = self._delays(rng, n)
+        loss = rng.choice(LOSSES)
         uniforms = [rng.choice(UNIFORMS) for _ in range(n)]
         return ([cf.qjson(d) for d in delays], None if loss is None else cf.qjson(loss), [cf.qjson(u) for u in uniforms], style)
 
+    @staticmethod
+    def _burst_workload(rng, flows, k, src="src0"):
+        """k packets put at instant 0 in one burst, then 0-2 single packets later"""
+        packets, uid = {}, 0
+        bursts = [["0", list(range(k))]]
+        t = F(0)
+        for i in range(k):
+            packets[str(i)] = {"id": i + 1, "flow": rng.choice(list(flows)), "size": rng.choice([64, 512, 1500]), "time": "0", "src": src}
+        for j in range(rng.randint(0, 2)):
+            t = t + rng.choice(ec.LATTICE[1:])
+            packets[str(k + j)] = {"id": k + j + 1, "flow": rng.choice(list(flows)), "size": 256, "time": cf.qjson(t), "src": src}
+            bursts.append([cf.qjson(t), [k + j]])
+        return {"packets": packets, "drivers": [{"late": rng.choice([0, 0, 1, 2]), "bursts": bursts}]}
+
     def gen_case(self, rng, tier, prop_id=None):
-        if rng.random() < 0.3:
-            w1 = ec.gen_workload(rng, flows=(0, 1), n_max=6)
-            w2 = _offset(ec.gen_workload(rng, flows=(1, 2), n_max=6), len(w1["packets"]))
+        r = rng.random()
+        config = rng.choices(["ctor", "assign", "bare"], weights=[72, 16, 12])[0]
+        canary = rng.random() < 0.08
+        if r < 0.22:
+            both = rng.random() < 0.4
+            if both:
+                w1 = self._burst_workload(rng, (0, 1), rng.randint(2, 4))
+                w2 = _offset(self._burst_workload(rng, (1, 2), rng.randint(2, 4)), len(w1["packets"]))
+            else:
+                w1 = ec.gen_workload(rng, flows=(0, 1), n_max=6)
+                w2 = _offset(ec.gen_workload(rng, flows=(1, 2), n_max=6), len(w1["packets"]))
             n = len(w1["packets"]) + len(w2["packets"])
             delays, loss, uniforms, style = self._draws(rng, n)
+            if both:                                    # the first packet of each direction propagates while the rest queue up
+                delays[0] = delays[1] = "4"
+                if loss is not None and F(loss) > 0:
+                    uniforms[0] = uniforms[1] = "1"
             return {"kind": "cable", "workload": w1, "workload2": w2, "delays": delays, "loss": loss, "uniforms": uniforms,
-                    "style": style, "pre": rng.random() < 0.3}
+                    "style": style, "pre": rng.random() < 0.3, "config": config, "canary": canary, "both": both}
+        if r < 0.34:
+            shape = rng.choice(["hub", "chain"])
+            nw = 3 if shape == "hub" else 2
+            w = ec.gen_workload(rng, flows=(0, 1, 2), n_max=6)
+            if shape == "hub":
+                for sp in w["packets"].values():
+                    sp["src"] = rng.choice(["e0", "e1", "e2"])
+            n = len(w["packets"])
+            loss = rng.choice(LOSSES)
+            dl = []
+            for _ in range(nw):
+                d, _st = self._delays(rng, n)
+                dl.append([cf.qjson(x) for x in d])
+            return {"kind": "multi", "shape": shape, "workload": w, "delays": dl, "loss": None if loss is None else cf.qjson(loss),
+                    "uniforms": [cf.qjson(rng.choice(UNIFORMS)) for _ in range(2 * n)], "style": "rand",
+                    "pre": rng.random() < 0.3, "config": rng.choice(["ctor", "ctor", "assign", "bare"]), "canary": canary}
         w = ec.gen_workload(rng, flows=(0, 1, 2), n_max=10)
-        delays, loss, uniforms, style = self._draws(rng, len(w["packets"]))
-        case = {"kind": "wire", "workload": w, "delays": delays, "loss": loss, "uniforms": uniforms, "style": style,
-                "pre": rng.random() < 0.3}
+        n = len(w["packets"])
+        extra = 0
+        case = {"kind": "wire", "workload": w, "pre": rng.random() < 0.3, "config": config, "canary": canary}
         if rng.random() < 0.25:
             case["until"] = cf.qjson(rng.choice([F(1, 2), F(1), F(2), F(3), F(5), F(8)]))
+        reput = []
+        if rng.random() < 0.12:
+            uids = sorted(int(u) for u in w["packets"])
+            reput = [rng.choice(uids) for _ in range(rng.randint(1, 3))]
+            extra = len(reput)
+        delays, loss, uniforms, style = self._draws(rng, n + extra)
+        case.update({"delays": delays, "loss": loss, "uniforms": uniforms, "style": style})
+        if rng.random() < 0.15:
+            db, _st = self._delays(rng, n + extra, "rand")
+            case["delays_b"] = [cf.qjson(x) for x in db]
+            times = rng.sample([F(1, 2), F(1), F(3, 2), F(2), F(3), F(5)], rng.randint(1, 2))
+            rc = []
+            for t in sorted(times):
+                what = rng.choice(["loss", "loss", "delays", "out"])
+                if what == "loss":
+                    val = rng.choice([x for x in LOSSES if (None if x is None else cf.qjson(x)) != loss])
+                    rc.append({"t": cf.qjson(t), "late": rng.choice([0, 1, 2]), "set": {"loss": None if val is None else cf.qjson(val)}})
+                elif what == "delays":
+                    rc.append({"t": cf.qjson(t), "late": rng.choice([0, 1, 2]), "set": {"delays": "B"}})
+                else:
+                    rc.append({"t": cf.qjson(t), "late": rng.choice([0, 1, 2]), "set": {"out": "out2"}})
+            case["reconf"] = rc
+        if reput:
+            # the SAME Packet objects enter the wire again (a retransmission) once every earlier traversal is over
+            tmax = max(F(t) for d in w["drivers"] for (t, _) in d["bursts"])
+            bound = sum(max(F(a), F(b)) for a, b in zip(delays, case.get("delays_b", delays)))
+            w["drivers"].append({"late": rng.choice([0, 1]), "bursts": [[cf.qjson(tmax + bound + 1), reput]], "reput": True})
         return case
 
     # ---- implementation -----------------------------------------------------------------------------
@@ -211,46 +421,86 @@ class WirePart:
         import onl.netdev.wire as wmod
         env = Environment()
         h = ec.Harness(env)
-        delays = Script(case["delays"])
-        unis = Script(case["uniforms"])
-        loss = _loss_arg(case)
+        if case["kind"] == "multi":
+            scripts = {f"w{i + 1}": Script(dl) for i, dl in enumerate(case["delays"])}
+        else:
+            scripts = {"A": Script(case["delays"]), "B": Script(case.get("delays_b", []))}
+        S = {"scripts": scripts, "unis": Script(case["uniforms"]), "decoy": Decoy(), "epoch": 0,
+             "loss": _loss_val(case["loss"]), "config": case.get("config", "ctor")}
+        unis = S["unis"]
 
         class FakeRandom:
             uniform = staticmethod(unis.uniform)
         saved = wmod.random
         wmod.random = FakeRandom
         try:
-            if case["kind"] == "wire":
-                return self._run_wire(case, env, h, wmod, delays, unis, loss)
-            return self._run_cable(case, env, h, wmod, delays, unis, loss)
+            obs = getattr(self, "_run_" + case["kind"])(case, env, h, wmod, S)
         finally:
             wmod.random = saved
+        if case.get("canary"):
+            obs["canary"] = run_canary(wmod)
+        return obs
 
-    def _run_wire(self, case, env, h, wmod, delays, unis, loss):
+    @staticmethod
+    def _sampler(h, S, wires):
+        def sample():
+            nd = {k: s.n for k, s in S["scripts"].items()}
+            nd["decoy"] = S["decoy"].n
+            return {"w": [[w.packets_rec, len(w.store.items)] for w in wires], "ep": S["epoch"], "nd": nd, "u": S["unis"].n}
+        h.after_action(sample)
+
+    @staticmethod
+    def _final(wires):
+        return {"stores": [[getattr(p, "uid", None) for p in w.store.items] for w in wires],
+                "packets_rec": [w.packets_rec for w in wires]}
+
+    def _run_wire(self, case, env, h, wmod, S):
         w = case["workload"]
         h.add_packets(w["packets"])
-        if case.get("pre"):
+
+        def drivers():
             for d in w["drivers"]:
                 h.add_driver(d["bursts"], late=d["late"])
-        wire = wmod.Wire(env, delay_dist=delays, loss_rate=loss)
-        wire.out = h.tap("out")
+        if case.get("pre"):
+            drivers()
+        wire = _build(wmod, env, "wire", S["config"], S["scripts"]["A"], S["loss"], S["decoy"])
+        taps = {"out": HTap(h, "out"), "out2": HTap(h, "out2")}
+        for t in taps.values():
+            t.feeder = wire
+        wire.out = taps["out"]
         h.attach(wire)
         h.watch_store("store", wire.store)
-        h.after_action(lambda: [wire.packets_rec, len(wire.store.items), unis.n, delays.n])
+        self._sampler(h, S, [wire])
+
+        def apply(st):
+            if "loss" in st:
+                wire.loss_rate = _loss_val(st["loss"])
+            if "delays" in st:
+                wire.delay_dist = S["scripts"][st["delays"]]
+            if "out" in st:
+                wire.out = taps[st["out"]]
+            S["epoch"] += 1
+
+        def reconf(t, late, st):
+            d = ec.T(t) - env.now
+            if d > 0:
+                yield env.timeout(d)
+            for _ in range(late):
+                yield env.timeout(0)
+            apply(st)
+        for rc in case.get("reconf", []):
+            h.driver_procs.add(env.process(reconf(rc["t"], rc["late"], rc["set"])))
         if not case.get("pre"):
-            for d in w["drivers"]:
-                h.add_driver(d["bursts"], late=d["late"])
+            drivers()
         until = ec.T(case["until"]) if case.get("until") is not None else None
         log = h.run(until=until)
-        return {"log": log, "raised": h.raised, "exhausted": h.exhausted,
-                "final": {"store": [getattr(p, "uid", None) for p in wire.store.items], "packets_rec": wire.packets_rec}}
+        return {"log": log, "raised": h.raised, "exhausted": h.exhausted, "final": self._final([wire])}
 
-    def _run_cable(self, case, env, h, wmod, delays, unis, loss):
+    def _run_cable(self, case, env, h, wmod, S):
         w1, w2 = case["workload"], case["workload2"]
         h.add_packets(w1["packets"])
         h.add_packets(w2["packets"])
-        dev1, dev2 = h.tap("dev1"), h.tap("dev2")
-        dev1.out = dev2.out = None
+        dev1, dev2 = HTap(h, "dev1"), HTap(h, "dev2")
         via = {1: Via(dev1), 2: Via(dev2)}
 
         def drivers():
@@ -260,31 +510,72 @@ class WirePart:
                 h.add_driver(d["bursts"], late=d["late"], target=via[2])
         if case.get("pre"):
             drivers()
-        cable = wmod.Cable(env, delay_dist=delays, loss_rate=loss)
+        cable = _build(wmod, env, "cable", S["config"], S["scripts"]["A"], S["loss"], S["decoy"])
         cable.set_endpoints(dev1, dev2)
         names = {id(dev1): "Dev1", id(dev2): "Dev2", id(cable.wire1): "NW1", id(cable.wire2): "NW2"}
         wiring = [[n, names.get(id(getattr(o, "out", None)), "none")] for n, o in
                   (("Dev1", dev1), ("NW1", cable.wire1), ("Dev2", dev2), ("NW2", cable.wire2))]
         disjoint = (cable.wire1 is not cable.wire2 and cable.wire1.store is not cable.wire2.store
-                    and cable.wire1.action is not cable.wire2.action)
+                    and cable.wire1.action is not cable.wire2.action
+                    and cable.wire1.store.items is not cable.wire2.store.items)
         if any(b == "none" for _, b in wiring) or len(names) != 4:
             return {"log": [], "raised": None, "exhausted": False, "wiring": wiring, "disjoint": disjoint, "final": None}
+        dev2.feeder, dev1.feeder = cable.wire1, cable.wire2
         cable.wire1.action._generator.__name__ = "run1"
         cable.wire2.action._generator.__name__ = "run2"
         h.attach(cable.wire1)
         h.watch_store("store1", cable.wire1.store)
         h.watch_store("store2", cable.wire2.store)
-        w_1, w_2 = cable.wire1, cable.wire2
-        h.after_action(lambda: [w_1.packets_rec, len(w_1.store.items), w_2.packets_rec, len(w_2.store.items), unis.n, delays.n])
+        self._sampler(h, S, [cable.wire1, cable.wire2])
         if not case.get("pre"):
             drivers()
         log = h.run()
         return {"log": log, "raised": h.raised, "exhausted": h.exhausted, "wiring": wiring, "disjoint": disjoint,
-                "final": {"store1": [getattr(p, "uid", None) for p in w_1.store.items],
-                          "store2": [getattr(p, "uid", None) for p in w_2.store.items],
-                          "packets_rec": [w_1.packets_rec, w_2.packets_rec]}}
+                "final": self._final([cable.wire1, cable.wire2])}
 
-    # ---- log -> model actions -----------------------------------------------------------------------
+    def _run_multi(self, case, env, h, wmod, S):
+        w = case["workload"]
+        h.add_packets(w["packets"])
+        hub_shape = case["shape"] == "hub"
+        nw = 3 if hub_shape else 2
+        target = Via(None)
+
+        def drivers():
+            for d in w["drivers"]:
+                h.add_driver(d["bursts"], late=d["late"], target=target)
+        if case.get("pre"):
+            drivers()
+        wires = [_build(wmod, env, "wire", S["config"], S["scripts"][f"w{i + 1}"], S["loss"], S["decoy"]) for i in range(nw)]
+        if hub_shape:
+            from onl.netdev.hub import Hub
+            eps = [HTap(h, f"e{i}") for i in range(nw)]
+            hub = Hub(env, eps, wires)              # one Packet object is put into every wire but the sender's
+            for e, wi in zip(eps, wires):
+                e.feeder = wi
+            entry = hub
+            wiring_ok = all(wi.out is e for e, wi in zip(eps, wires)) and all(e.out is hub for e in eps)
+        else:
+            out = HTap(h, "out")
+            mid = HTap(h, "mid", nxt=wires[1])      # wire1 -> (relay) -> wire2 -> out: two traversals in sequence
+            mid.feeder, out.feeder = wires[0], wires[1]
+            wires[0].out, wires[1].out = mid, out
+            entry = wires[0]
+            wiring_ok = True
+
+        class Entry:
+            out = entry
+        target.dev = Entry
+        for i, wi in enumerate(wires):
+            wi.action._generator.__name__ = f"run{i + 1}"
+            h.watch_store(f"store{i + 1}", wi.store)
+        h.attach(entry)
+        self._sampler(h, S, wires)
+        if not case.get("pre"):
+            drivers()
+        log = h.run()
+        return {"log": log, "raised": h.raised, "exhausted": h.exhausted, "wiring_ok": wiring_ok, "final": self._final(wires)}
+
+    # ---- what the case says about topology and configuration ----------------------------------------------
     @staticmethod
     def _specs(case):
         s = dict(case["workload"]["packets"])
@@ -292,153 +583,251 @@ class WirePart:
             s.update(case["workload2"]["packets"])
         return s
 
+    @staticmethod
+    def _nwires(case):
+        return {"wire": 1, "cable": 2}.get(case["kind"]) or (3 if case["shape"] == "hub" else 2)
+
+    @staticmethod
+    def _cfgs(case):
+        """configuration in force per epoch (epoch = number of reconfigurations applied so far)"""
+        cur = {"loss": case["loss"], "delays": "A", "out": "out"}
+        out = [dict(cur)]
+        for rc in sorted(case.get("reconf", []), key=lambda r: F(r["t"])):
+            cur.update(rc["set"])
+            out.append(dict(cur))
+        return out
+
+    def _receivers(self, case, uid):
+        k = case["kind"]
+        if k == "wire":
+            return [0]
+        if k == "cable":
+            return [0] if str(uid) in case["workload"]["packets"] else [1]
+        if case["shape"] == "chain":
+            return [0]
+        src = case["workload"]["packets"][str(uid)]["src"]
+        return [i for i in range(3) if f"e{i}" != src]
+
+    def _downstream(self, case, i, cfg):
+        """tag of the tap that wire i hands its packets to"""
+        k = case["kind"]
+        if k == "wire":
+            return cfg["out"]
+        if k == "cable":
+            return ["dev2", "dev1"][i]
+        return f"e{i}" if case["shape"] == "hub" else ["mid", "out"][i]
+
+    def _script_of(self, case, i, cfg):
+        return f"w{i + 1}" if case["kind"] == "multi" else cfg["delays"]
+
+    @staticmethod
+    def _label_wire(tgt):
+        """'store' / 'run' -> 0; 'store2' / 'run2' -> 1 ..."""
+        base = tgt.rstrip("0123456789")
+        return base, (int(tgt[len(base):]) - 1 if len(tgt) > len(base) else 0)
+
+    # ---- log -> model actions (what the implementation DID: draws as counted by the scripts) ----------------
+    STEPS = {("Initialize", "run"): "WInit", ("StorePut", "store"): "WStoreCb", ("StoreGet", "store"): "get", ("Timeout", "run"): "WTimer"}
+
     def _actions(self, case, obs):
         specs = self._specs(case)
         cable = case["kind"] == "cable"
-        dir_of = {}
-        if cable:
-            dir_of = {int(u): "D1" for u in case["workload"]["packets"]}
-            dir_of.update({int(u): "D2" for u in case["workload2"]["packets"]})
-        steps = {("Initialize", "run"): "WInit", ("StorePut", "store"): "WStoreCb", ("StoreGet", "store"): "get",
-                 ("Timeout", "run"): "WTimer"}
-        acts = []
-        nu = nd = 0
+        nw = self._nwires(case)
+        cfgs = self._cfgs(case)
+        vals = {"A": case["delays"], "B": case.get("delays_b", [])} if case["kind"] != "multi" else \
+               {f"w{i + 1}": dl for i, dl in enumerate(case["delays"])}
+        rows = [[] for _ in range(nw)]       # per wire: (loss, action, outs, rec, len)
+        crows = []                           # cable: global rows
+        prev = {"nd": {k: 0 for k in vals}, "u": 0}
+        prev["nd"]["decoy"] = 0
+
+        def pk(uid):
+            return ec.pkt_coq(specs[str(uid)], uid)
         for e in obs["log"]:
-            kind = e[0]
-            sample = e[-1]
-            su, sd = sample[-2], sample[-1]
+            kind, smp = e[0], e[-1]
+            if smp["ep"] >= len(cfgs):
+                return None, "more reconfigurations applied than the case contains"
+            cfg = cfgs[smp["ep"]]
+            loss = cf.opt(cfg["loss"], cf.q)
+            per = {}                          # wire -> (action, outs)
             if kind == "adv":
-                a = f"CAdvance {cf.q(e[1])}" if cable else f"WAdvance {cf.q(e[1])}"
-                outs = []
+                for i in range(nw):
+                    per[i] = (f"WAdvance {cf.q(e[1])}", [])
+                cact = f"CAdvance {cf.q(e[1])}"
+                couts = []
             elif kind == "put":
-                wa = f"WPut {ec.pkt_coq(specs[str(e[1])], e[1])}"
-                a = f"CA {dir_of[e[1]]} ({wa})" if cable else wa
-                outs = e[2]
+                if e[2]:
+                    return None, "a delivery inside put()"
+                for i in self._receivers(case, e[1]):
+                    per[i] = (f"WPut {pk(e[1])}", [])
+                cact, couts = (f"CA D{self._receivers(case, e[1])[0] + 1} (WPut {pk(e[1])})", []) if cable else (None, [])
             elif kind == "step":
                 (tn, tgt), outs = e[1], e[2]
-                d = None
-                if cable and tgt and tgt[-1] in "12":
-                    d, tgt = "D" + tgt[-1], tgt[:-1]
-                wa = steps.get((tn, tgt))
-                if wa is None or (cable and d is None):
+                base, i = self._label_wire(tgt)
+                wa = self.STEPS.get((tn, base))
+                if wa is None or i >= nw:
                     return None, f"unexpected kernel step {e[1]}"
                 if wa == "get":
-                    u = case["uniforms"][nu] if su > nu else None
-                    dd = case["delays"][nd] if sd > nd else None
-                    if su > nu + 1 or sd > nd + 1:
-                        return None, "more than one draw of a kind in one step"
-                    wa = f"WGet {cf.opt(u, cf.q)} {cf.opt(dd, cf.q)}"
-                a = f"CA {d} ({wa})" if cable else wa
+                    du = smp["u"] - prev["u"]
+                    dd = {k: smp["nd"][k] - prev["nd"][k] for k in smp["nd"]}
+                    used = [k for k, v in dd.items() if v]
+                    if du > 1 or sum(dd.values()) > 1 or "decoy" in used:
+                        return None, f"draws in one step: uniform {du}, delay {dd}"
+                    u = case["uniforms"][prev["u"]] if du else None
+                    d = vals[used[0]][prev["nd"][used[0]]] if used else None
+                    wa = f"WGet {cf.opt(u, cf.q)} {cf.opt(d, cf.q)}"
+                own = [o for o in outs if o[0] == "out" and o[1] == self._downstream(case, i, cfg)]
+                if len(own) != len([o for o in outs if o[0] == "out"]):
+                    return None, f"a delivery to an unexpected next hop in {e[:2]}"
+                per[i] = (wa, own)
+                if case["kind"] == "multi" and case["shape"] == "chain" and i == 0:
+                    for o in own:
+                        per[1] = (f"WPut {pk(o[2])}", [])
+                cact = f"CA D{i + 1} ({wa})"
+                couts = own
             else:
                 return None, f"unexpected log entry {e[:2]}"
-            if (su, sd) != (nu, nd) and not (kind == "step" and e[1][0] == "StoreGet"):
-                return None, f"draws consumed outside a StoreGet step ({e[:2]})"
-            nu, nd = su, sd
+            if kind != "step" or e[1][0] != "StoreGet":
+                if smp["u"] != prev["u"] or any(smp["nd"][k] != prev["nd"][k] for k in smp["nd"]):
+                    return None, f"draws consumed outside a StoreGet step ({e[:2]})"
+            prev = {"nd": dict(smp["nd"]), "u": smp["u"]}
+            for i, (a, outs) in per.items():
+                o = cf.lst([f"ODeliver {pk(x[2])}" for x in outs])
+                rows[i].append(f"({loss}, ({a}, {o}, ({cf.z(smp['w'][i][0])}, {cf.nat(smp['w'][i][1])})))")
             if cable:
-                o = cf.lst([f"({TAPNODE.get(x[1], 'NW1')}, ODeliver {ec.pkt_coq(specs[str(x[2])], x[2])})" for x in outs])
-                acts.append(f"({a}, {o}, (({cf.z(sample[0])}, {cf.nat(sample[1])}), ({cf.z(sample[2])}, {cf.nat(sample[3])})))")
-            else:
-                o = cf.lst([f"ODeliver {ec.pkt_coq(specs[str(x[2])], x[2])}" for x in outs])
-                acts.append(f"({a}, {o}, ({cf.z(sample[0])}, {cf.nat(sample[1])}))")
-        return acts, None
+                o = cf.lst([f"({TAPNODE.get(x[1], 'NW1')}, ODeliver {pk(x[2])})" for x in couts])
+                s1, s2 = smp["w"]
+                crows.append(f"({cact}, {o}, (({cf.z(s1[0])}, {cf.nat(s1[1])}), ({cf.z(s2[0])}, {cf.nat(s2[1])})))")
+        return (rows, crows), None
 
     def agree_term(self, case, obs):
         if obs["raised"]:
             return "false"
-        acts, err = self._actions(case, obs)
-        if acts is None:
+        if obs.get("final") is None:
+            return "false (* set_endpoints left an out pointer unset *)"
+        res, err = self._actions(case, obs)
+        if res is None:
             return f"false (* {err} *)"
-        loss = cf.opt(case["loss"], cf.q)
+        rows, crows = res
+        sep = ";" + chr(10) + "    "
         if case["kind"] == "cable":
-            if obs["final"] is None or any(b not in NODES for _, b in obs["wiring"]):
+            if any(b not in NODES for _, b in obs["wiring"]):
                 return "false (* set_endpoints left an out pointer unset *)"
             wiring = cf.lst([f"({a}, {b})" for a, b in obs["wiring"]])
+            per = " && ".join(f"wire_agree_cfg (wire0 0) {cf.lst(r, sep=sep)}" for r in rows)
             return (f"wiring_agree {wiring} && {cf.b(bool(obs['disjoint']))} && "
-                    f"cable_agree {loss} (cable0 0) {cf.lst(acts, sep=';' + chr(10) + '    ')}")
-        return f"wire_agree {loss} (wire0 0) {cf.lst(acts, sep=';' + chr(10) + '    ')}"
+                    f"cable_agree {cf.opt(case['loss'], cf.q)} (cable0 0) {cf.lst(crows, sep=sep)} && {per}")
+        if case["kind"] == "multi" and not obs.get("wiring_ok"):
+            return "false (* hub wiring *)"
+        return " && ".join(f"wire_agree_cfg (wire0 0) {cf.lst(r, sep=sep)}" for r in rows)
 
     def model_term(self, case):
         return None
 
     # ---- the property as an oracle over the implementation's behaviour ----------------------------------
     def _walk(self, case, obs):
-        """One pass over the implementation log.  Per direction: arrivals [(uid, instant)], deliveries
-        [(uid, instant, tap, fields, same)], dequeues [(instant, (u, d))] with the draws attributed in global
-        consumption order by the documented rule (u only when loss_rate is truthy, d only when the packet is kept)."""
-        cable = case["kind"] == "cable"
-        loss = None if case["loss"] is None else F(case["loss"])
-        us, ds = [F(x) for x in case["uniforms"]], [F(x) for x in case["delays"]]
-        dirs = {1: {"arr": [], "del": [], "deq": []}, 2: {"arr": [], "del": [], "deq": []}}
-        dir_of = {int(u): 1 for u in case["workload"]["packets"]}
-        if cable:
-            dir_of.update({int(u): 2 for u in case["workload2"]["packets"]})
+        """One pass over the implementation log.  Per wire: arrivals [(uid, instant)], dequeues [(instant, (u, d), loss in
+        force)], deliveries [(uid, instant, tap, fields, same, probe, expected tap, puts so far, dequeues so far)].
+        Draws are attributed by the DOCUMENTED rule in global consumption order: a uniform only when the loss_rate in force is
+        truthy, then a delay from the delay_dist in force only when the packet is kept."""
+        nw = self._nwires(case)
+        cfgs = self._cfgs(case)
+        us = [F(x) for x in case["uniforms"]]
+        if case["kind"] == "multi":
+            vals = {f"w{i + 1}": [F(x) for x in dl] for i, dl in enumerate(case["delays"])}
+        else:
+            vals = {"A": [F(x) for x in case["delays"]], "B": [F(x) for x in case.get("delays_b", [])]}
+        W = [{"arr": [], "deq": [], "del": []} for _ in range(nw)]
         msgs = []
         now = F(0)
-        iu = idd = 0
-        last = None
+        iu = 0
+        nd = {k: 0 for k in vals}
+        prev_w = [[0, 0] for _ in range(nw)]
+        chain = case["kind"] == "multi" and case["shape"] == "chain"
         for e in obs["log"]:
+            smp = e[-1]
+            cfg = cfgs[min(smp["ep"], len(cfgs) - 1)]
             if e[0] == "adv":
                 t = F(e[1])
                 if t <= now:
                     msgs.append("wire-time-decreases: the clock did not move forward")
                 now = t
-                last = e[-1]
+                touched = []
+            elif e[0] == "put":
+                touched = self._receivers(case, e[1])
+                for i in touched:
+                    W[i]["arr"].append((e[1], now))
+            elif e[0] == "step":
+                base, i = self._label_wire(e[1][1])
+                i = min(i, nw - 1)
+                touched = [i]
+                if e[1][0] == "StoreGet":
+                    loss = None if cfg["loss"] is None else F(cfg["loss"])
+                    u = dd = None
+                    if loss:
+                        u = us[iu] if iu < len(us) else None
+                        iu += 1
+                    if not (loss and u is not None and u < loss):
+                        sn = self._script_of(case, i, cfg)
+                        dd = vals[sn][nd[sn]] if nd[sn] < len(vals[sn]) else F(0)
+                        nd[sn] += 1
+                    if len(W[i]["deq"]) >= len(W[i]["arr"]):
+                        msgs.append(f"wire-invented: wire {i + 1} dequeues a packet that was never put in")
+                    W[i]["deq"].append((now, (u, dd), loss))
+                for o in e[2]:
+                    if o[0] != "out":
+                        continue
+                    probe = o[5] if len(o) > 5 else None
+                    W[i]["del"].append((o[2], now, o[1], o[3], o[4], probe, self._downstream(case, i, cfg),
+                                        len(W[i]["arr"]), len(W[i]["deq"])))
+                    if chain and i == 0 and o[1] == "mid":
+                        W[1]["arr"].append((o[2], now))
+                        touched.append(1)
+            else:
                 continue
-            if e[0] not in ("put", "step"):
-                continue
-            sample = e[-1]
-            if e[0] == "put":
-                dirs[dir_of[e[1]]]["arr"].append((e[1], now))
-            elif e[1][0] == "StoreGet":
-                d = 2 if (cable and e[1][1].endswith("2")) else 1
-                k = len(dirs[d]["deq"])
-                u = dd = None
-                if loss:
-                    u = us[iu] if iu < len(us) else None
-                    iu += 1
-                if not (loss and u is not None and u < loss):
-                    dd = ds[idd] if idd < len(ds) else F(0)
-                    idd += 1
-                dirs[d]["deq"].append((now, (u, dd)))
-                if k >= len(dirs[d]["arr"]):
-                    msgs.append(f"wire-invented: direction {d} dequeues a packet that was never put in")
-            if (sample[-2], sample[-1]) != (iu, idd):
-                msgs.append(f"wire-draws: after {e[:2]} the wire has consumed {sample[-2]} uniform / {sample[-1]} delay draws, "
-                            f"the documented rule (uniform only when loss_rate is truthy, then delay only for a kept packet) gives {iu}/{idd}")
-                iu, idd = sample[-2], sample[-1]
-            for o in e[2]:
-                if o[0] == "out":
-                    uid = o[2]
-                    d = dir_of.get(uid, 1)
-                    dirs[d]["del"].append((uid, now, o[1], o[3], o[4]))
-            last = sample
-        return dirs, msgs, last
+            got = {k: smp["nd"].get(k) for k in nd}
+            if smp["u"] != iu or got != nd or smp["nd"].get("decoy"):
+                msgs.append(f"wire-draws: after {e[:2]} the wire has consumed {smp['u']} uniform draws and delay draws {smp['nd']}; the "
+                            f"documented rule (uniform only when the loss_rate in force is truthy, then one delay from the delay_dist "
+                            f"in force only for a kept packet; never from a replaced delay_dist) gives {iu} and {nd}")
+                iu = smp["u"]
+                nd = {k: smp["nd"].get(k, 0) for k in nd}
+            for i in range(nw):
+                if i not in touched and smp["w"][i] != prev_w[i]:
+                    msgs.append(f"wire-interference: {e[:2]} does not concern wire {i + 1} but changed its (packets_rec, len(store)) "
+                                f"from {prev_w[i]} to {smp['w'][i]}")
+            prev_w = [list(x) for x in smp["w"]]
+        return W, msgs
 
     def monitor(self, case, obs, prop_id):
         if obs["raised"]:
             return [f"wire-raises: {obs['raised']}"]
-        cable = case["kind"] == "cable"
+        kind = case["kind"]
         msgs = []
-        if cable:
+        cn = obs.get("canary")
+        if cn is not None and cn != CANARY_EXPECT:
+            msgs.append(f"wire-canary: after this case the fixed canary scenario (fresh Environment, Wire and Cable) observed {cn}, "
+                        f"known observation {CANARY_EXPECT}: state leaks across instances or runs")
+        if kind == "cable":
             want = [["Dev1", "NW1"], ["NW1", "Dev2"], ["Dev2", "NW2"], ["NW2", "Dev1"]]
             if obs["wiring"] != want:
                 msgs.append(f"cable-wiring: set_endpoints gives out pointers {obs['wiring']}, expected dev1->wire1->dev2, dev2->wire2->dev1")
             if not obs["disjoint"]:
-                msgs.append("cable-shared-state: the two wires of the cable share a wire, store or process")
+                msgs.append("cable-shared-state: the two wires of the cable share a wire, store, item list or process")
             if obs["final"] is None:
                 return msgs[:3]
-        dirs, wmsgs, last = self._walk(case, obs)
-        loss = None if case["loss"] is None else F(case["loss"])
+        W, wmsgs = self._walk(case, obs)
         specs = self._specs(case)
-        for d in ((1, 2) if cable else (1,)):
-            D = dirs[d]
+        for i, D in enumerate(W):
             arr, deq = D["arr"], D["deq"]
-            rec = _recurrence(arr, [x[1] for x in deq], loss)
+            rec = _recurrence(arr, deq)
             exp = [(uid, T) for (uid, a, s, lost, T) in rec if not lost]
-            lost = [uid for (uid, a, s, lost_, T) in rec if lost_]
-            got = [(u, t) for (u, t, _, _, _) in D["del"]]
-            tag = f"direction {d}: " if cable else ""
-            far = {1: "dev2", 2: "dev1"}[d] if cable else "out"
+            nlost = {}
+            for (uid, a, s, lost_, T) in rec:
+                if lost_:
+                    nlost[uid] = nlost.get(uid, 0) + 1
+            got = [(x[0], x[1]) for x in D["del"]]
+            tag = f"wire {i + 1}: " if len(W) > 1 else ""
             if prop_id == "C10":
                 msgs.extend(m for m in wmsgs if m not in msgs)
                 # the delivery-time law, FIFO, loss iff u < rate: delivered (uid, instant) = the recurrence's, minus at most
@@ -451,51 +840,73 @@ class WirePart:
                     msgs.append(f"wire-delivery: {tag}delivered {[(u, str(t)) for u, t in got][:8]} is not the expected "
                                 f"{[(u, str(t)) for u, t in exp][:8]} minus at most the packet still propagating")
                 # dequeue instants: packet k is taken at max(a_k, completion of packet k-1); a lost packet delays nobody
-                for (uid, a, s, lost_, T), (tq, _) in zip(rec, deq):
+                for (uid, a, s, lost_, T), (tq, _, _) in zip(rec, deq):
                     if tq != s:
                         msgs.append(f"wire-dequeue-instant: {tag}packet {uid} (arrived {a}) dequeued at {tq}, expected {s} "
                                     "= max(arrival, instant the server finished the previous packet)")
                         break
-                for (uid, t, tp, fields, same) in D["del"]:
-                    if tp != far:
-                        msgs.append(f"cable-crossed: {tag}packet {uid} came out at {tp}, expected {far}")
+                for x in D["del"]:
+                    if x[2] != x[6]:
+                        msgs.append(f"{'cable-crossed' if kind == 'cable' else 'wire-wrong-next-hop'}: {tag}packet {x[0]} came out at "
+                                    f"{x[2]}, expected {x[6]} (the `out` in force when it is handed over)")
                         break
+            # what the next hop sees of the wire from inside its put()
+            for x in D["del"]:
+                pr = x[5]
+                if pr is None:
+                    continue
+                k = x[8] - 1                               # the traversal being handed over is the last one dequeued
+                a_k = arr[k][1] if 0 <= k < len(arr) else None
+                bad = []
+                if pr[0] != x[7]:
+                    bad.append(f"packets_rec = {pr[0]} after {x[7]} put() calls")
+                if pr[1] != x[7] - x[8]:
+                    bad.append(f"len(store.items) = {pr[1]} with {x[7]} packets put and {x[8]} dequeued")
+                queued = [u for u, _ in arr[x[8]:x[7]]].count(x[0])
+                if pr[2] != queued:
+                    bad.append(f"the packet handed over occurs {pr[2]} time(s) in store.items, {queued} later traversal(s) of it are queued")
+                if a_k is not None and (pr[3] is None or F(pr[3]) != a_k):
+                    bad.append(f"packet.current_time = {pr[3]}, the packet entered this wire at {a_k}")
+                if not pr[4]:
+                    bad.append("wire.out is not the object whose put() is being called")
+                if bad:
+                    msgs.append(f"wire-handoff: {tag}inside the next hop's put() for packet {x[0]} at {x[1]}: " + "; ".join(bad))
+                    break
             if prop_id == "C08":
-                # every packet put in: delivered exactly once | lost by the documented rule | still held
+                # every traversal put in: delivered exactly once | lost by the documented rule | still held
                 put = [u for u, _ in arr]
                 gotu = [u for u, _ in got]
-                for u in gotu:
+                for u in sorted(set(gotu)):
                     if u not in put:
                         msgs.append(f"wire-invented: {tag}packet {u} delivered but never put in")
-                    elif gotu.count(u) != 1:
-                        msgs.append(f"wire-duplicated: {tag}packet {u} delivered {gotu.count(u)} times")
-                    if u in lost:
-                        msgs.append(f"wire-lost-delivered: {tag}packet {u} is lost by the rule (u < loss_rate) and yet delivered")
-                held = [u for u in put if u not in gotu and u not in lost]
-                store = obs["final"]["store" + str(d)] if cable else obs["final"]["store"]
+                    elif gotu.count(u) + nlost.get(u, 0) > put.count(u):
+                        msgs.append(f"wire-duplicated: {tag}packet {u} put in {put.count(u)} time(s), delivered {gotu.count(u)} time(s), "
+                                    f"lost by the rule {nlost.get(u, 0)} time(s)")
+                store = obs["final"]["stores"][i]
+                taken = len(deq)
+                kept = [uid for (uid, a, s, lost_, T) in rec if not lost_]
                 if obs["exhausted"]:
-                    if held or store:
-                        msgs.append(f"wire-not-drained: {tag}simulation ran out of events but packets {held} are neither delivered nor lost "
-                                    f"(store holds {store})")
+                    if taken != len(put) or store or gotu != kept:
+                        msgs.append(f"wire-not-drained: {tag}simulation ran out of events: {len(put)} packets put in, {taken} dequeued, "
+                                    f"delivered {gotu}, to be delivered {kept}, store holds {store}")
                 else:
-                    taken = len(deq)
                     inside = put[taken:]                       # not yet dequeued: must be exactly the store, in order
                     if store != inside:
                         msgs.append(f"wire-store-content: {tag}store holds {store}, expected the not yet dequeued packets {inside} in order")
-                    extra = [u for u in held if u not in inside]
-                    if len(extra) > 1 or (extra and extra != [put[taken - 1]]):
-                        msgs.append(f"wire-vanished: {tag}packets {extra} are neither delivered, lost, in the store nor the one in service")
-                # per-flow order
+                    if not (gotu == kept or (kept and gotu == kept[:-1] and rec[-1][0] == kept[-1] and not rec[-1][3])):
+                        msgs.append(f"wire-vanished: {tag}dequeued and kept {kept}, delivered {gotu}: more than the one in service is missing")
+                # per-flow order (positional: the deliveries are the kept traversals in arrival order)
                 flows = {}
                 for u in put:
                     flows.setdefault(specs[str(u)]["flow"], []).append(u)
                 for f, seq in flows.items():
-                    outf = [u for u in gotu if u in seq]
+                    outf = [u for u in gotu if specs.get(str(u), {}).get("flow") == f]
                     it = iter(seq)
                     if not all(any(x == u for x in it) for u in outf):
                         msgs.append(f"wire-flow-order: {tag}flow {f} entered as {seq} and left as {outf}")
             # identity and header fields (both properties: 'the very same packet')
-            for (uid, t, tp, fields, same) in D["del"]:
+            for x in D["del"]:
+                uid, fields, same = x[0], x[3], x[4]
                 sp = specs.get(str(uid))
                 if sp is None:
                     continue
@@ -504,18 +915,20 @@ class WirePart:
                     msgs.append(f"wire-packet-altered: {tag}packet {uid} delivered as {fields} same-object={same}")
                     break
             # the public counter
-            nrec = obs["final"]["packets_rec"][d - 1] if cable else obs["final"]["packets_rec"]
+            nrec = obs["final"]["packets_rec"][i]
             if nrec != len(arr):
                 msgs.append(f"wire-counter: {tag}packets_rec = {nrec} after {len(arr)} put() calls")
+        if kind == "multi" and not obs.get("wiring_ok"):
+            msgs.append("hub-wiring: Hub(env, endpoints, ports) did not point every port at its endpoint and every endpoint at the hub")
         return msgs[:4]
 
     def nontrivial(self, case, obs, prop_id=None):
         n = len(self._specs(case))
         if n < 3 or obs.get("raised") or obs.get("final") is None:
             return False
-        dirs, _, _ = self._walk(case, obs)
-        for D in dirs.values():
-            for (uid, a), (tq, _) in zip(D["arr"], D["deq"]):
+        W, _ = self._walk(case, obs)
+        for D in W:
+            for (uid, a), (tq, _, _) in zip(D["arr"], D["deq"]):
                 if a < tq:
                     return True
         return False
@@ -529,18 +942,36 @@ class WirePart:
                 yield {**case, "workload2": w}
         if case["loss"] is not None:
             yield {**case, "loss": None}
-        if case.get("until") is not None:
-            yield {k: v for k, v in case.items() if k != "until"}
+        for k in ("until", "reconf", "canary"):
+            if case.get(k):
+                yield {kk: v for kk, v in case.items() if kk != k}
+        if len(case.get("reconf", [])) > 1:
+            for j in range(len(case["reconf"])):
+                yield {**case, "reconf": case["reconf"][:j] + case["reconf"][j + 1:]}
+        if case.get("config", "ctor") != "ctor":
+            yield {**case, "config": "ctor"}
         if case.get("pre"):
             yield {**case, "pre": False}
 
     def describe(self, case, obs):
         k = case["kind"]
         n = len(self._specs(case))
-        keys = [k, f"{k}:loss={case['loss']}", f"{k}:packets={min(n, 12)}", f"{k}:delays={case.get('style', '?')}"]
+        keys = [k, f"{k}:loss={case['loss']}", f"{k}:packets={min(n, 12)}", f"{k}:delays={case.get('style', '?')}",
+                f"{k}:config={case.get('config', 'ctor')}"]
         if k == "wire":
             keys.append("wire:drivers=%d" % len(case["workload"]["drivers"]))
             keys.append("wire:stopped-early" if case.get("until") is not None and not obs.get("exhausted") else "wire:ran-to-quiescence")
+            for rc in case.get("reconf", []):
+                keys.append("wire:reconfigured-between-packets:" + "/".join(sorted(rc["set"])))
+            if any(d.get("reput") for d in case["workload"]["drivers"]):
+                keys.append("wire:same-packet-object-re-enters-later")
+        if k == "multi":
+            keys.append("multi:" + case["shape"])
+        if k == "cable" and obs.get("log"):
+            if any(e[-1]["w"][0][1] > 0 and e[-1]["w"][1][1] > 0 for e in obs["log"]):
+                keys.append("cable:both-directions-queued-at-once")
+        if case.get("canary"):
+            keys.append("canary-after-case")
         if case.get("pre"):
             keys.append(k + ":drivers-created-before-element")
         return keys
